@@ -1117,6 +1117,128 @@ Section Calm.
     exists n. cbn zeta. cbn [drive]. split; [exact Qn|]. split; [exact Sn|]. rewrite En. exact E.
   Qed.
 
+  (* ---------- ... and exactly once: no handler succeeds twice on the way to rest ---------- *)
+  Definition okcount (h : hid) (l : list (hid * nat * nat * outcome)) : nat :=
+    List.length (filter (fun x => Nat.eqb (fst (fst (fst x))) h && match snd x with OK => true | _ => false end) l).
+
+  Lemma okcount_app h a b : okcount h (a ++ b) = okcount h a + okcount h b.
+  Proof. unfold okcount. rewrite filter_app, app_length. reflexivity. Qed.
+
+  Lemma okcount_planned now v h :
+    selected v <> [] ->
+    okcount h (log_of v (changing now v ok)) = if existsb (Nat.eqb h) (planned now v) then 1 else 0.
+  Proof.
+    intro S. unfold log_of. rewrite (invoked_planned now v ok S), map_map. cbn [fst snd].
+    pose proof (planned_nodup hc hu lc ids_unique now v) as ND.
+    unfold okcount. induction (planned now v) as [|x l IH]; [reflexivity|].
+    inversion ND as [|? ? NI ND']; subst. cbn [map filter fst snd existsb]. unfold ok at 1.
+    destruct (Nat.eqb x h) eqn:E.
+    - apply Nat.eqb_eq in E. subst x. rewrite Nat.eqb_refl. cbn [andb orb length].
+      rewrite (IH ND').
+      destruct (existsb (Nat.eqb h) l) eqn:Ex; [|reflexivity]. exfalso.
+      apply existsb_exists in Ex. destruct Ex as (y & Iy & Ey). apply Nat.eqb_eq in Ey. subst y. contradiction.
+    - cbn [andb]. rewrite (IH ND'). rewrite Nat.eqb_sym, E. reflexivity.
+  Qed.
+
+  Definition finished_here (w : world) (h : hid) : Prop :=
+    ~ outstanding (w_srv w) \/ (In h (selected (w_srv w)) /\ is_done (hstate 0 (w_srv w) h) = true).
+
+  Lemma once_step w0 w h extra :
+    calm w -> w_log w = w_log w0 ++ extra ->
+    (pending_handler w h /\ okcount h extra = 0) \/ (finished_here w h /\ okcount h extra = 1) ->
+    exists extra', w_log (calm_step ok w) = w_log w0 ++ extra'
+      /\ ((pending_handler (calm_step ok w) h /\ okcount h extra' = 0) \/ (finished_here (calm_step ok w) h /\ okcount h extra' = 1)).
+  Proof.
+    intros C G J. destruct (c_queue w C) as [Q|Q].
+    - (* sleep out the timer and touch, or stay at rest: nothing is invoked, the server's records are the same *)
+      exists extra. unfold calm_step. rewrite Q.
+      destruct (m_timer (w_mem w)); [|split; [exact G|exact J]].
+      cbn [w_log]. split; [exact G|].
+      unfold pending_handler, finished_here, outstanding in *. cbn [w_srv].
+      rewrite (selected_same (touch (w_srv w)) (w_srv w)) by reflexivity. exact J.
+    - rewrite (calm_proc w ok C Q).
+      destruct (calm_shapes w ok C Q) as [L|[(O & Cl)|[(O & S & D & NE)|(O & S & D & E0)]]].
+      + rewrite (calm_result_rest w ok C L). exists extra. cbn [w_log w_srv]. split; [exact G|exact J].
+      + destruct (calm_result_close w ok C O Cl) as (s' & -> & L' & E' & F' & R').
+        exists (extra ++ log_of (w_srv w) (changing (w_now w) (w_srv w) ok)). cbn [w_log w_srv].
+        split; [rewrite G, app_assoc; reflexivity|]. right.
+        assert (NO : ~ outstanding s') by (unfold outstanding; rewrite L', E'; tauto).
+        split; [left; exact NO|]. rewrite okcount_app.
+        destruct Cl as [S0|AD].
+        * (* no handler at all for this cause *)
+          assert (okcount h (log_of (w_srv w) (changing (w_now w) (w_srv w) ok)) = 0) as Z.
+          { unfold log_of, CycleWorld.changing. rewrite S0. reflexivity. }
+          rewrite Z. destruct J as [((_ & Sel & _) & _)|(_ & K)]; [rewrite S0 in Sel; destruct Sel|lia].
+        * assert (S : selected (w_srv w) <> []).
+          { destruct J as [((_ & Sel & _) & _)|([N|(Sel & _)] & _)]; try (intro X; rewrite X in Sel; destruct Sel). contradiction. }
+          rewrite (okcount_planned _ _ h S).
+          destruct J as [((_ & Sel & ND) & K)|([N|(Sel & Dn)] & K)].
+          -- (* still pending: all_done forces it to be planned now *)
+             assert (existsb (Nat.eqb h) (planned (w_now w) (w_srv w)) = true) as Ex.
+             { unfold CycleWorld.all_done in AD. rewrite forallb_forall in AD. specialize (AD h Sel).
+               unfold CycleWorld.state_after in AD. destruct (existsb (Nat.eqb h) (planned (w_now w) (w_srv w))); [reflexivity|].
+               rewrite (hstate_now _ 0) in AD. congruence. }
+             rewrite Ex. lia.
+          -- contradiction.
+          -- (* already finished: never planned again *)
+             assert (existsb (Nat.eqb h) (planned (w_now w) (w_srv w)) = false) as Ex.
+             { destruct (existsb (Nat.eqb h) (planned (w_now w) (w_srv w))) eqn:X; [|reflexivity]. exfalso.
+               apply existsb_exists in X. destruct X as (y & Iy & Ey). apply Nat.eqb_eq in Ey. subst y.
+               apply (planned_awake hc hu lc) in Iy. destruct Iy as (A & _). rewrite (hstate_now _ 0) in A.
+               destruct (hstate 0 (w_srv w) h); [discriminate|discriminate]. }
+             rewrite Ex. lia.
+      + destruct (calm_result_store w ok C O S D NE) as (s' & -> & L' & E' & F' & R').
+        exists (extra ++ log_of (w_srv w) (changing (w_now w) (w_srv w) ok)). cbn [w_log w_srv].
+        split; [rewrite G, app_assoc; reflexivity|]. rewrite okcount_app, (okcount_planned _ _ h S).
+        unfold finished_here, pending_handler. cbn [w_srv].
+        assert (HS : forall x, In x (selected (w_srv w)) -> hstate 0 s' x = state_after (w_now w) (w_srv w) ok x).
+        { intros x Ix. unfold hstate at 1. rewrite R', (stored_for_open _ _ _ x S D).
+          assert (existsb (Nat.eqb x) (selected (w_srv w)) = true) as Es by (apply existsb_exists; exists x; split; [exact Ix|apply Nat.eqb_refl]).
+          rewrite Es. cbn [andb]. destruct (store_filter (w_now w) (w_srv w) x) eqn:SF; [reflexivity|].
+          unfold store_filter in SF. apply orb_false_iff in SF. destruct SF as (NP & _).
+          unfold CycleWorld.state_after. rewrite NP. reflexivity. }
+        assert (OS : outstanding s') by (unfold outstanding; rewrite L', E'; exact O).
+        destruct (existsb (Nat.eqb h) (planned (w_now w) (w_srv w))) eqn:Ex.
+        * (* invoked now, with success *)
+          destruct J as [((_ & Sel & ND) & K)|([N|(Sel & Dn)] & K)].
+          -- right. split; [|lia]. right. rewrite (selected_same s' (w_srv w) L' E'). split; [exact Sel|].
+             rewrite (HS h Sel). unfold CycleWorld.state_after. rewrite Ex. reflexivity.
+          -- contradiction.
+          -- exfalso. apply existsb_exists in Ex. destruct Ex as (y & Iy & Ey). apply Nat.eqb_eq in Ey. subst y.
+             apply (planned_awake hc hu lc) in Iy. destruct Iy as (A & _). rewrite (hstate_now _ 0) in A.
+             destruct (hstate 0 (w_srv w) h); discriminate.
+        * destruct J as [((_ & Sel & ND) & K)|([N|(Sel & Dn)] & K)].
+          -- left. split; [|lia]. unfold pending_handler. rewrite (selected_same s' (w_srv w) L' E'). repeat split; try assumption.
+             rewrite (HS h Sel). unfold CycleWorld.state_after. rewrite Ex. rewrite (hstate_now _ 0). exact ND.
+          -- contradiction.
+          -- right. split; [|lia]. right. rewrite (selected_same s' (w_srv w) L' E'). split; [exact Sel|].
+             rewrite (HS h Sel). unfold CycleWorld.state_after. rewrite Ex. rewrite (hstate_now _ 0). exact Dn.
+      + destruct (calm_result_sleep w ok C O S D E0) as (dl & Pos & -> & _).
+        exists extra. cbn [w_log w_srv]. split; [exact G|exact J].
+  Qed.
+
+  Theorem calm_serves_exactly_once w h :
+    calm w -> pending_handler w h ->
+    forall n, let w' := drive (repeat ok n) w in
+      settled (w_srv w') = true ->
+      exists extra, w_log w' = w_log w ++ extra /\ okcount h extra = 1.
+  Proof.
+    intros C P n.
+    assert (G : forall k w1 extra, calm w1 -> w_log w1 = w_log w ++ extra ->
+                  (pending_handler w1 h /\ okcount h extra = 0) \/ (finished_here w1 h /\ okcount h extra = 1) ->
+                  exists extra', w_log (drive (repeat ok k) w1) = w_log w ++ extra'
+                    /\ ((pending_handler (drive (repeat ok k) w1) h /\ okcount h extra' = 0)
+                        \/ (finished_here (drive (repeat ok k) w1) h /\ okcount h extra' = 1))).
+    { induction k as [|k IH]; intros w1 extra C1 G1 J1; cbn [repeat drive]; [exists extra; tauto|].
+      destruct (once_step w w1 h extra C1 G1 J1) as (extra' & G' & J').
+      apply (IH (calm_step ok w1) extra' (calm_step_calm ok w1 C1) G' J'). }
+    cbn zeta. intro St.
+    destruct (G n w [] C (eq_sym (app_nil_r _)) (or_introl (conj P eq_refl))) as (extra & GE & [((O & _) & _)|(_ & K)]).
+    - exfalso. apply O. unfold CycleWorld.settled in St. apply andb_true_iff in St. destruct St as (L & _).
+      destruct (o_last _) as [l|]; [|discriminate]. apply Nat.eqb_eq in L. congruence.
+    - exists extra. split; assumption.
+  Qed.
+
   (* ---------- all of it together ---------- *)
   Theorem calm_convergence w (failing : list (hid -> outcome)) :
     calm w ->
